@@ -43,7 +43,13 @@ def run(ck, rng, tier):
         ny = rng.randint(1, 4)
         cond = rng.choice((1.0, 10.0, 100.0, 1e3, 1e4))
         noise = rng.choice((0.0, 0.0, 0.1, 2.0))
+        far = c in (1, 2) or (thorough and c % 20 == 7)
+        if far:  # noisy responses far from the origin (offset 3e5..3e6 spreads): TSS must be taken about the mean
+            noise, cond = 0.3, min(cond, 10.0)
         X, Y = gen(rng, n, m, ny, cond, noise)
+        if far:
+            Y = Y + rng.choice((3e5, 3e6)) * Y.std(axis=0)
+            ck.count("responses far from the origin")
         Xnew = np.array([[rng.gauss(0, 1) for _ in range(m)] for _ in range(3)])
         kind = rng.choice(("plain", "yaffine", "xmix"))
         lines.append("mlr %s %s %s" % (vf.fmt_mat(X.tolist(), m), vf.fmt_mat(Y.tolist(), ny), vf.fmt_mat(Xnew.tolist(), m)))
